@@ -86,4 +86,23 @@ example : exMsg.WFresolved := by
     simp [SDOption.WF, registeredType, OPT_CONFIG, OPT_LOADBAL,
       OPT_V4_ENDPOINT, OPT_V4_MULTICAST, OPT_V4_SD, OPT_V6_ENDPOINT, OPT_V6_MULTICAST, OPT_V6_SD]
 
+/-- the premise is the encoder's own limit, not a count of what the entries name: 20 entries naming the same run of
+15 options each (300 options named in total) share one stored run and meet `WFresolved` -/
+def exRun : List SDOption := (List.range 15).map (fun i => SDOption.loadBal i 1)
+def exBig : SDHeader :=
+  { entries := List.replicate 20 { ty := .offer, sid := 1, iid := 2, maj := 3, ttl := 4, val := 5, opts1 := exRun, opts2 := [] } }
+example : runsLen exBig.entries = 300 ∧ (assignAll exBig.entries exBig.options).2.length = 15 := by decide +kernel
+example : exBig.WFresolved := by
+  refine ⟨by decide, ?_, ?_, by decide +kernel, by decide +kernel⟩
+  · intro e he
+    have := List.eq_of_mem_replicate he
+    subst this
+    refine ⟨rfl, ⟨by decide, by decide, by decide, by decide, by decide, by decide, by decide, by decide⟩, ?_, ?_⟩
+    · intro o ho
+      obtain ⟨i, hi, rfl⟩ := List.mem_map.mp ho
+      have := List.mem_range.mp hi
+      simp [SDOption.WF]; omega
+    · intro o ho; cases ho
+  · intro o ho; cases ho
+
 end Someip
